@@ -120,7 +120,7 @@ func c15Job(raw json.RawMessage) (any, error) {
 			}
 		}
 		want := fmt.Sprintf("accept=%v path=%q params=%s", wantOK, wantPath, hv.ParamsString(wantPs))
-		outc[fmt.Sprintf("%v/%v", ok, wantOK)] = struct{}{}
+		outc[fmt.Sprintf("%s/accept=%v/rewritten=%v/params=%d", it.Kind, ok, req.URL.Path != path, len(ps))] = struct{}{}
 		if got != want {
 			class := "wrong-accept"
 			switch {
